@@ -278,11 +278,20 @@ execute_c20 (const scenario_t *sc, result_t *res)
     res->nontrivial = releases >= 3;
 }
 
+typedef struct { const scenario_t *sc; result_t *res; } c14_run_t;
+static void c14_thread (void *p) { c14_run_t *e = p; execute_c14 (e->sc, e->res); }
+
 static void
 execute (const scenario_t *sc, const char *property, result_t *res)
 {
     if (property && !strcmp (property, "C20")) execute_c20 (sc, res);
-    else execute_c14 (sc, res);
+    else
+    {
+	/* on a thread of its own: the dispatch cache is thread-local, and a scenario must not start
+	 * with the entries (and the implementation chain) of the scenario this process ran before it */
+	c14_run_t e = { sc, res };
+	run_on_fresh_thread (c14_thread, &e);
+    }
 }
 
 /* ---------------------------------------------------------------- generators */
